@@ -228,14 +228,13 @@ impl FixtureDatabase {
 
     /// What the definition binds: the indentation of its line (a class body is a namespace
     /// of its own, apart from the module's) and the name of the Python function (or
-    /// assignment target) - the text of its name span, which differs from the fixture name
-    /// for `@pytest.fixture(name=...)`.
+    /// assignment target), which differs from the fixture name for
+    /// `@pytest.fixture(name=...)`. Recorded by the analysis that recorded the definition.
     fn binding_of(&self, def: &FixtureDefinition) -> Option<(usize, String)> {
-        let content = self.get_file_content(&def.file_path)?;
-        let line = content.lines().nth(def.line.checked_sub(1)?)?;
-        let indent = line.len() - line.trim_start().len();
-        line.get(def.start_char..def.end_char)
-            .map(|name| (indent, name.to_string()))
+        self.definition_bindings
+            .get(&def.file_path)?
+            .get(&def.line)
+            .cloned()
     }
 
     /// Order same-named definitions of one priority tier by where they are, so that the
